@@ -275,7 +275,13 @@ def summarise_reader(T, cls, suffix, magic, version, save_ref=True):
     for k, e in flat:
         if k == "call" and str(e.args[0]).endswith(".decode"):
             rs.decode = tuple(e.args[1]) + tuple(v for _, v in e.args[2])
-    # ---------------------------------------------------------------- reference-table behaviour per return path
+    behaviours = ref_behaviour(flat, rs, save_ref)
+    rs.ref = "|".join(sorted(behaviours)) if behaviours else "never"
+    return rs
+
+
+def ref_behaviour(flat, rs, save_ref):
+    """classify reference-table behaviour on every return path of a reader (fills rs.ref_problems)"""
     order = []  # (kind, effect) in order: 'append', 'insert', 'child'
     for k, e in flat:
         if k == "call" and str(e.args[0]) == "internObjects.append":
@@ -343,8 +349,7 @@ def summarise_reader(T, cls, suffix, magic, version, save_ref=True):
             rs.ref_problems.append(("registered-object-is-not-result:%s" % pathname,
                                     "the reference table receives %s but the reader returns %s; a later back-reference yields the stale object" % (show(appended), show(val))))
             behaviours.add("bad")
-    rs.ref = "|".join(sorted(behaviours)) if behaviours else "never"
-    return rs
+    return behaviours
 
 
 def flatten_effect_objs(effects):
